@@ -71,6 +71,15 @@ var connScripts = []connScript{
 		r.Send([]byte{1, 2, 3, 4, 5, 6, 7, 8, 9, 10, 11, 12, 13, 14, 15, 16, 17, 18, 19})
 		r.Drain()
 	}},
+	{"handshake-duplicate-open", func(w *world.World, r *world.Remote, id uint32) {
+		// the OPEN twice, then the rest of a normal handshake: whatever corebgp makes of the second OPEN,
+		// the plugin hears of one OPEN per connection
+		r.Send(csOpen(id))
+		r.Send(csOpen(id))
+		r.Send(wire.Keepalive())
+		r.Send(wire.Update([]byte("U1")))
+		r.Drain()
+	}},
 }
 
 type c01Params struct {
@@ -232,10 +241,37 @@ func c01Run(p c01Params, ch vrt.Chooser, trace, baseline bool) (*world.World, *v
 	return w, e, steps
 }
 
-func c01Scn(p c01Params, bound int) *Scn {
+func c01Scn(p c01Params, bound int) *Scn { return c01ScnFor("C01", p, bound) }
+
+// c01MatrixLate: every pair of first-connection scripts in both modes and dominances, with Close only
+// after 13 virtual seconds (all reconnections have happened): the sequences of sessions in both
+// directions that single-connection input enumeration never produces (also run by C05).
+func c01MatrixLate() []c01Params {
+	var out []c01Params
+	for _, passive := range []bool{false, true} {
+		for in := -1; in < len(connScripts); in++ {
+			outs := []int{-1}
+			if !passive {
+				for i := range connScripts {
+					outs = append(outs, i)
+				}
+			} else if in < 0 {
+				continue
+			}
+			for _, o := range outs {
+				for _, domL := range []bool{false, true} {
+					out = append(out, c01Params{passive: passive, in: in, out: o, domL: domL, tail: 0, trigK: "time", trigN: 13000})
+				}
+			}
+		}
+	}
+	return out
+}
+
+func c01ScnFor(prop string, p c01Params, bound int) *Scn {
 	return &Scn{Name: p.name(), Bound: bound, Run: func(ch vrt.Chooser, trace bool) *ScnResult {
 		w, e, _ := c01Run(p, ch, trace, false)
-		return finishRun("C01", "callbacks", w, e, trace, false, func() (string, string) {
+		return finishRun(prop, "callbacks", w, e, trace, false, func() (string, string) {
 			if r, m := monitorCallbacks(w); r != "" {
 				return r, m
 			}
@@ -342,6 +378,15 @@ func c01Scenarios(th bool) []*Scn {
 					}
 					out = append(out, slowTwin(c01Scn(p, 1), kind, 1, 300*time.Millisecond))
 				}
+			}
+		}
+	}
+	// a callback that takes longer than any internal patience: DeletePeer / Close wait for it
+	for _, cb := range []io{{false, -1, stay}, {true, stay, -1}} {
+		for _, tail := range []int{0, 1, 2} {
+			for _, kind := range []string{"Handler", "OnEstablished"} {
+				p := c01Params{passive: cb.passive, in: cb.in, out: cb.out, tail: tail, trigK: "time", trigN: 1000}
+				out = append(out, slowTwin(c01Scn(p, 1), kind, 1, 7*time.Second))
 			}
 		}
 	}
